@@ -48,6 +48,37 @@ type Input struct {
 	Verifier string `json:"verifier"` // "stub" (Verify only), "skipper" (stub with SkipVerify), or the library's verifier built
 	// by "realNew" / "realNewWithOptions" / "realNewVerifierWithOptions" and handed to notation.Verify AS IS
 	Policy int `json:"policy"` // real verifier: shape of the trust policy document (policyDoc)
+	// the caller's further options (userMetadataOf, pluginConfigOf): 0 = nil, 1 = empty non-nil map, 2.. = non-empty
+	UserMetadata int `json:"userMetadata"`
+	PluginConfig int `json:"pluginConfig"`
+}
+
+const userMetadataKinds, pluginConfigKinds = 4, 3
+
+// user metadata the caller requires: pairs that every genuine envelope of this harness carries (signedMetadata), so
+// that the requirement never turns a good signature into a bad one
+var signedMetadata = map[string]string{"buildId": "101", "io.example.team": "release"}
+
+func userMetadataOf(k int) map[string]string {
+	switch k % userMetadataKinds {
+	case 1:
+		return map[string]string{}
+	case 2:
+		return map[string]string{"buildId": "101"}
+	case 3:
+		return map[string]string{"buildId": "101", "io.example.team": "release"}
+	}
+	return nil
+}
+
+func pluginConfigOf(k int) map[string]string {
+	switch k % pluginConfigKinds {
+	case 1:
+		return map[string]string{}
+	case 2:
+		return map[string]string{"endpoint": "https://kms.example", "profile": "verify"}
+	}
+	return nil
 }
 
 type Obs struct {
@@ -309,12 +340,14 @@ func getWorld() *realWorld {
 	worldOnce.Do(func() {
 		w := &realWorld{trusted: common.MakeChain(common.ChainOpts{Tag: "c10 trusted"}), untrusted: common.MakeChain(common.ChainOpts{Tag: "c10 untrusted"}),
 			blobs: map[string][]byte{}, index: map[string]int{}}
-		elsewhere := ocispec.Descriptor{MediaType: artifact.MediaType, Digest: other, Size: artifact.Size}
+		// what was signed: the artifact by media type, digest and size, with the signer's user metadata
+		signedArtifact := ocispec.Descriptor{MediaType: artifact.MediaType, Digest: artifact.Digest, Size: artifact.Size, Annotations: signedMetadata}
+		elsewhere := ocispec.Descriptor{MediaType: artifact.MediaType, Digest: other, Size: artifact.Size, Annotations: signedMetadata}
 		for pos := 0; pos < realPositions; pos++ {
 			for _, format := range []string{common.MediaJWS, common.MediaCOSE} {
 				for kind, o := range map[string]common.EnvOpts{
-					"good":      {Chain: w.trusted, Target: &artifact},
-					"untrusted": {Chain: w.untrusted, Target: &artifact},
+					"good":      {Chain: w.trusted, Target: &signedArtifact},
+					"untrusted": {Chain: w.untrusted, Target: &signedArtifact},
 					"elsewhere": {Chain: w.trusted, Target: &elsewhere},
 				} {
 					o.Format = format
@@ -469,7 +502,8 @@ func runCase(in Input) Obs {
 		panic("c10: unknown verifier " + in.Verifier)
 	}
 	desc, outcomes, err := notation.Verify(context.Background(), v, r, notation.VerifyOptions{
-		ArtifactReference: refString(in.Ref, in.RefVariant), MaxSignatureAttempts: in.Max})
+		ArtifactReference: refString(in.Ref, in.RefVariant), MaxSignatureAttempts: in.Max,
+		UserMetadata: userMetadataOf(in.UserMetadata), PluginConfig: pluginConfigOf(in.PluginConfig)})
 	o := Obs{Resolved: r.resolved, Listed: r.listed, Fetched: r.fetched, Verified: verifiedLog()}
 	if o.Fetched == nil {
 		o.Fetched = []int{}
@@ -573,6 +607,7 @@ func Run(c *common.Ctx) error {
 		if strings.HasPrefix(in.Verifier, "real") {
 			c.Count(fmt.Sprintf("real/skip=%v/policy=%d", in.Skip, in.Policy%policyShapes))
 		}
+		c.Count(fmt.Sprintf("skip=%v/userMetadata=%d/pluginConfig=%d", in.Skip, in.UserMetadata, in.PluginConfig))
 		if o.Success != nil {
 			c.Count("outcome=success")
 		} else if o.Skipped {
@@ -593,7 +628,14 @@ func Run(c *common.Ctx) error {
 					variants = append(variants, withEmpty)
 				}
 				for _, pages := range variants {
+					maxes := []int{}
 					for max := -1; max <= n+2 && max <= 7; max++ {
+						maxes = append(maxes, max)
+					}
+					if n <= 2 {
+						maxes = append(maxes, 100) // the CLI's default
+					}
+					for _, max := range maxes {
 						for _, ref := range refs {
 							// the full cross with references only on short listings; tag otherwise
 							if ref != "tag" && n > shortLen {
@@ -630,10 +672,23 @@ func Run(c *common.Ctx) error {
 									}
 									// the repository's answer to a stop request: all four behaviours on short listings, a
 									// rotation on long ones
-									for _, m := range stopModes(counter, n <= shortLen) {
+									for k, m := range stopModes(counter, n <= shortLen) {
+										// the caller's further options: a rotation; under a skip level the full cross (once per case)
 										in := Input{Max: max, Pages: pages, Ref: ref, Skip: skip, RefVariant: variant, Flavors: flavors, SameAs: sameAs,
-											ListErr: m.listErr, Wrap: m.wrap, Verifier: "skipper"}
+											ListErr: m.listErr, Wrap: m.wrap, Verifier: "skipper",
+											UserMetadata: (counter + k) % userMetadataKinds, PluginConfig: (counter/userMetadataKinds + k) % pluginConfigKinds}
 										emit(in)
+										if skip && k == 0 {
+											for um := 0; um < userMetadataKinds; um++ {
+												for pc := 0; pc < pluginConfigKinds; pc++ {
+													if um != in.UserMetadata || pc != in.PluginConfig {
+														in2 := in
+														in2.UserMetadata, in2.PluginConfig = um, pc
+														emit(in2)
+													}
+												}
+											}
+										}
 										c.Count("refVariant=" + ref + "/" + variant)
 										c.Count("ref=" + ref)
 										c.Count(fmt.Sprintf("len=%d", n))
@@ -651,8 +706,20 @@ func Run(c *common.Ctx) error {
 												continue // under skip nothing is listed: one stop behaviour per case is enough
 											}
 											in := Input{Max: max, Pages: pages, Ref: ref, Skip: skip, RefVariant: variant, Flavors: flavors, SameAs: sameAs,
-												ListErr: m.listErr, Wrap: m.wrap, Verifier: realCtors[(counter+k)%len(realCtors)], Policy: (counter/3 + k) % policyShapes}
+												ListErr: m.listErr, Wrap: m.wrap, Verifier: realCtors[(counter+k)%len(realCtors)], Policy: (counter/3 + k) % policyShapes,
+												UserMetadata: (counter/2 + k) % userMetadataKinds, PluginConfig: (counter/5 + k) % pluginConfigKinds}
 											emit(in)
+											if skip {
+												for um := 0; um < userMetadataKinds; um++ {
+													for pc := 0; pc < pluginConfigKinds; pc++ {
+														if um != in.UserMetadata || pc != in.PluginConfig {
+															in2 := in
+															in2.UserMetadata, in2.PluginConfig = um, pc
+															emit(in2)
+														}
+													}
+												}
+											}
 										}
 									}
 								}
@@ -664,7 +731,7 @@ func Run(c *common.Ctx) error {
 		}
 	}
 	c.SetExhaustive(true)
-	c.Note("listings of length 0..%[1]d over {good,bad,unfetchable} x all pagings x limits -1..min(len+2,7); reference shapes crossed for len<=%[2]d, skip for len<=2; "+
+	c.Note("listings of length 0..%[1]d over {good,bad,unfetchable} x all pagings x limits -1..min(len+2,7) and 100 for len<=2; the caller's further options UserMetadata (nil / empty map / 1 / 2 pairs that the envelopes carry) x PluginConfig (nil / empty / non-empty): fully crossed under a skip level (stub skipper and real verifier), rotating otherwise; reference shapes crossed for len<=%[2]d, skip for len<=2; "+
 		"repository's answer to the callback's stop request: verbatim / with context added (%[3]d kinds: fmt %%w, errors.Join either side, Unwrap() error, Unwrap() []error, two layers, Is method) / swallowed / replaced by an unrelated error (%[4]d kinds) - all four for len<=%[2]d, rotating for longer listings; "+
 		"verifiers: stub with SkipVerify, stub without (non-skip, len<=%[2]d), and for repository@digest references with len<=%[2]d the library's verifier (New / NewWithOptions / NewVerifierWithOptions, handed over unwrapped) over %[5]d policy document shapes (level skip or strict on the applicable statement, the opposite level on the other) and genuine JWS / COSE envelopes (good = trusted chain over the artifact; bad = untrusted chain, or trusted chain over another artifact), evaluations observed through an instrumented trust store",
 		maxLen, shortLen, wrapKinds-1, replaceKinds, policyShapes)
